@@ -223,7 +223,7 @@ def run_case(case):
                 if st["mtime"] is not None:
                     os.utime(path, ns=(st["mtime"], st["mtime"]))
             if st["staging"] is not None:
-                with open(os.fspath(path) + ".STAGING", "wb") as f:
+                with open(os.path.join(os.path.dirname(os.fspath(path)), st.get("staging_name") or (os.path.basename(os.fspath(path)) + ".STAGING")), "wb") as f:
                     f.write(st["staging"])
             # the trace: write(old), the operations of write(new) performed before the death, kill, what is on disk
             cut = _events_before_op(base_events, k)
